@@ -33,8 +33,10 @@ Definition prefix_err (s : bytes) : bool := eqb_bytes (firstn 3 s) (bs "ERR").
 
 (* Hello(a) returns "re:" a "#" n, n = how often the body has run for a (1 when C04 holds);
    Ping(a) returns nothing; Nanoseconds() returns 42 *)
+(* service 4 (registered after the raw-frame part, hence not in `target`): the factory object and the
+   children it adds to its own service answer action 100 like Hello *)
 Definition fres (s o a : N) (p : bytes) : bytes :=
-  if pong s then
+  if pong s || (s =? 4) then
     (if a =? 100 then match arg_of p with Some x => enc_str (bs "re:" ++ x ++ bs "#1") | None => [] end else [])
   else le 8 42.
 Definition okargs (s o a : N) (p : bytes) : bool :=
